@@ -139,6 +139,8 @@ def render(n):
         return f"({render(n[1])}{op}{render(n[2])})"
     if k == "neg":
         return f"(-{render(n[1])})"
+    if k == "mrecip":
+        return f"(%{render(n[1])})"            # monadic % : reciprocal
     if k == "pow":
         return f"({render(n[1])}^{n[2]})"
     if k == "gpow":
@@ -260,7 +262,7 @@ def gen_s(rng, env, depth, allow_trans, mat=None):
         op = rng.choice(["add", "sub", "mul", "mul", "div"])
         return [op, gen_s(rng, env, depth - 1, allow_trans), gen_s(rng, env, depth - 1, allow_trans)]
     if r < 0.40:
-        return ["neg", gen_s(rng, env, depth - 1, allow_trans)]
+        return [rng.choice(["neg", "neg", "mrecip"]), gen_s(rng, env, depth - 1, allow_trans)]
     if r < 0.48:
         return ["pow", gen_s(rng, env, depth - 1, allow_trans), rng.choice([2, 2, 3, 3, -1, -2, 1, 0, 4])]
     if r < 0.54:
@@ -309,7 +311,7 @@ def gen_v(rng, env, n, depth, allow_trans):
         b = gen_v(rng, env, n, depth - 1, allow_trans) if shape[1] == "v" else gen_s(rng, env, depth - 1, allow_trans)
         return [op, a, b]
     if r < 0.46:
-        return ["neg", gen_v(rng, env, n, depth - 1, allow_trans)]
+        return [rng.choice(["neg", "neg", "mrecip"]), gen_v(rng, env, n, depth - 1, allow_trans)]
     if r < 0.56:
         return ["pow", gen_v(rng, env, n, depth - 1, allow_trans), rng.choice([2, 2, 3, -1, -2, 1, 0])]
     if r < 0.62:
@@ -354,7 +356,7 @@ def gen_m(rng, depth, allow_trans, pname="x"):
         b = gen_m(rng, depth - 1, allow_trans, pname) if shape[1] == "m" else ["const", frs(rng.choice(CONSTS))]
         return [op, a, b]
     if r < 0.52:
-        return ["neg", gen_m(rng, depth - 1, allow_trans, pname)]
+        return [rng.choice(["neg", "neg", "mrecip"]), gen_m(rng, depth - 1, allow_trans, pname)]
     if r < 0.68:
         return ["pow", gen_m(rng, depth - 1, allow_trans, pname), rng.choice([2, 2, 3, -1, -2, 1, 0])]
     if r < 0.74:
@@ -568,6 +570,8 @@ def pd_eval(n, env, seed):
         return _bc(pd_eval(n[1], env, seed), pd_eval(n[2], env, seed), dn_div)
     if k == "neg":
         return _map(pd_eval(n[1], env, seed), dn_neg)
+    if k == "mrecip":
+        return _map(pd_eval(n[1], env, seed), lambda a: dn_recip(a, "reciprocal of a value near zero"))
     if k == "pow":
         return _map(pd_eval(n[1], env, seed), lambda a: dn_pow(a, n[2]))
     if k == "gpow":
@@ -798,6 +802,10 @@ def lower(n, env):
     if k == "neg":
         ka, a = lower(n[1], env)
         return (ka, [("n", x) for x in a]) if ka == "V" else ("S", ("n", a))
+    if k == "mrecip":
+        ka, a = lower(n[1], env)
+        one = ("c", Fr(1))
+        return (ka, [("/", one, x) for x in a]) if ka == "V" else ("S", ("/", one, a))
     if k == "pow":
         e = n[2]
 
@@ -1001,7 +1009,7 @@ def to_np(r):
 
 # =========================================================================== cases
 
-INLINE_SAFE = {"const", "vconst", "par", "add", "sub", "mul", "div", "pow", "gpow", "sum", "prod", "idx", "join", "neg",
+INLINE_SAFE = {"const", "vconst", "par", "add", "sub", "mul", "div", "pow", "gpow", "mrecip", "sum", "prod", "idx", "join", "neg",
                "count", "flat"}
 SINGLE_FORMS = ["ag", "ag-named", "ag-sym", "nabla", "nabla-sym", "nabla-monad"]
 JAC_FORMS = ["partial", "partial-named", "sysjac", "sysjac-named"]
@@ -1404,6 +1412,8 @@ def allowances(orc, backend, numeric, nops):
         if numeric:
             # 1e-5 relative (the property) + rounding of f(x+h) - f(x-h): 2*err*u / (2*eps), x4 safety
             round_off = 4 * orc.err[i] * U64 / float(EPS)
+            # + truncation eps^2/6*|f'''| where the gradient row is (near) zero: f''' is not tracked, the
+            #   running magnitude bound err stands in for it (10*eps^2*err)
             tol[i, :] = 1e-5 * scale + round_off + FLOOR
         else:
             # float32 autograd: 1e-3 relative (the property) + rounding of the backward products
@@ -1425,6 +1435,25 @@ def run_case(ctx, model, real, fam, tree, params, **kw):
                                                            as_int=kw.get("as_int"), var=var),
                         "a comparable result", traceback.format_exc()[-600:],
                         "the harness could not evaluate / decode this case")
+
+
+def py_central_difference(tree, env, m):
+    """(f(x + eps e_j) - f(x - eps e_j)) / (2 eps) by the independent evaluator, rows = outputs"""
+    names = list(env.params)
+    out = np.zeros((m, env.n))
+    for j in range(env.n):
+        vals = []
+        for sign in (1, -1):
+            params, o = {}, 0
+            for k_ in names:
+                fl = env.flat(k_)
+                new = [v + sign * EPS if o + i == j else v for i, v in enumerate(fl)]
+                o += len(fl)
+                params[k_] = new[0] if env.kind(k_) == "S" else new
+            r = pd_eval(tree, Env(params), -1)
+            vals.append([float(d.v) for d in (r if isinstance(r, list) else [r])])
+        out[:, j] = (np.array(vals[0]) - np.array(vals[1])) / (2 * float(EPS))
+    return out
 
 
 def judge(got, orc, backend, numeric, nops):
@@ -1498,6 +1527,21 @@ def _run_case(ctx, model, real, fam, tree, params, forms=None, backends=None, qu
                              base, a.tolist(), b.tolist())
                 return
             ctx.bump("tie:oracle-float")
+    if cd_rows is None:
+        # float-mode tree (transcendental functions / general powers): no exact central difference from the
+        # model; the independent evaluator's own central difference (float64 around exact shifted points)
+        # serves the same purpose — is the point inside the domain where central differences converge?
+        try:
+            pc = py_central_difference(orc.tree, oenv, m)
+            J = np.array([[float(x) for x in r] for r in orc.jac], dtype=float).reshape(m, n)
+            for i in range(m):
+                sc = float(np.max(np.abs(J[i]))) if n else 0.0
+                trunc_ok[i, :] = np.abs(pc[i] - J[i]) <= 2e-6 * sc + 1e-10 + 8 * orc.err[i] * U64 / float(EPS)
+        except (NotSmooth, ZeroDivisionError, OverflowError, ValueError):
+            trunc_ok[:] = False
+        if not trunc_ok.all():
+            ctx.bump("skipped:near-singular(truncation)")
+            return
     if cd_rows is not None:
         J = np.array([[float(x) for x in r] for r in orc.jac], dtype=float).reshape(m, n)
         C = np.array([[float(x) for x in r] for r in cd_rows], dtype=float).reshape(m, n)
@@ -1591,6 +1635,14 @@ def _run_case(ctx, model, real, fam, tree, params, forms=None, backends=None, qu
                 numeric = True
                 site = "torch:jacobian:numeric-fallback"
                 ctx.bump("torch-jacobian-fell-back-to-numeric")
+            if status == "exc" and backend == "torch" and not numeric and "mrecip" in ops_in(tree) \
+                    and val.startswith("RuntimeError") and "Can't call numpy() on Tensor that requires grad" in val:
+                # eval_monad_reciprocal converts its operand with numpy's asarray: a tracked tensor cannot pass
+                ctx.bump("raises:torch:autograd:monadic-reciprocal")
+                ctx.oracle_fail("torch:autograd:monadic-reciprocal", case, "the derivative", val,
+                                "monadic % (reciprocal) of the differentiated variable raises under torch autograd; "
+                                "dyadic 1%x, numeric ∇ and the numpy backend are right")
+                continue
             if status == "exc" and backend == "torch" and not numeric and "Can't call numpy() on Tensor that requires grad" in val \
                     and ops_in(tree) & {"each2", "scan", "scanN"}:
                 # Each-2 and the scans collect their results with the module-level numpy `asarray` /
@@ -2051,7 +2103,7 @@ def run_python_points(ctx, real, count, quick):
         trees = []
         for _ in range(60):
             t = gen_s(ctx.rng, env, ctx.rng.choice([1, 2, 2]), ctx.rng.random() < 0.2)
-            if not depends(t, "x") or ops_in(t) & {"each2", "scan", "scanN"} or tree_size(t) > 14:
+            if not depends(t, "x") or ops_in(t) & {"each2", "scan", "scanN", "mrecip"} or tree_size(t) > 14:
                 continue
             try:
                 trees.append((t, Oracle(t, env)))
@@ -2194,6 +2246,16 @@ FIXED = [
      {"M": [[Fr(1), Fr(2)], [Fr(3), Fr(5)]]}),
     ("multi", ["mul", ["sum", ["pow", ["colfold", "+", ["par", "M"], 2, 3], 2]], ["par", "b"]],
      {"M": [[Fr(1), Fr(2), Fr(3)], [Fr(3), Fr(5), Fr(1, 2)]], "b": Fr(1, 2)}),
+    # monadic arithmetic verbs: reciprocal %x and negate -x
+    ("scalar", ["mrecip", ["par", "x"]], {"x": Fr(2)}),
+    ("scalar", ["neg", ["par", "x"]], {"x": Fr(2)}),
+    ("scalar", ["mul", ["par", "x"], ["mrecip", ["add", ["par", "x"], ["const", "1/1"]]]], {"x": Fr(3, 2)}),
+    ("vector", ["sum", ["mrecip", ["par", "x"]]], {"x": [Fr(2), Fr(4)]}),
+    ("vector", ["sum", ["neg", ["mrecip", ["mul", ["par", "x"], ["par", "x"]]]]], {"x": [Fr(2), Fr(-1), Fr(1, 2)]}),
+    ("multi", ["add", ["sum", ["mrecip", ["par", "w"]]], ["mrecip", ["par", "b"]]], {"w": [Fr(2), Fr(4)], "b": Fr(-2)}),
+    ("multi", ["mrecip", ["par", "b"]], {"b": Fr(2)}),
+    ("jac", ["mrecip", ["par", "x"]], {"x": [Fr(2), Fr(4)]}),
+    ("jac", ["join", [["mrecip", ["idx", ["par", "x"], 0]], ["neg", ["idx", ["par", "x"], 1]]]], {"x": [Fr(2), Fr(4)]}),
     # Over / Scan with every arithmetic verb over 3-5 members
     ("vector", ["over", "-", ["pow", ["par", "x"], 2]], {"x": [Fr(3), Fr(1), Fr(2)]}),
     ("vector", ["over", "%", ["par", "x"]], {"x": [Fr(3), Fr(1, 2), Fr(2), Fr(-1)]}),
